@@ -17,6 +17,16 @@ use crate::net::ProxyInfo;
 use crate::retrier::RetrierStatus;
 use crate::{MisbehaviorProof, SubscriptionError, TowerInfo, TowerStatus, TowerSummary};
 
+/// Whether a database error means that the record is already there. This is not a failure: lightningd may deliver the
+/// same revocation more than once, and a retry may reach a tower that already acknowledged the appointment.
+fn already_stored(e: &rusqlite::Error) -> bool {
+    matches!(
+        e,
+        rusqlite::Error::SqliteFailure(ie, _) if ie.code == rusqlite::ErrorCode::ConstraintViolation
+            && ie.extended_code == rusqlite::ffi::SQLITE_CONSTRAINT_PRIMARYKEY
+    )
+}
+
 #[derive(Eq, PartialEq)]
 pub enum RevocationData {
     Fresh(Locator),
@@ -221,12 +231,19 @@ impl WTClient {
         receipt: &AppointmentReceipt,
     ) {
         if let Some(tower) = self.towers.get_mut(&tower_id) {
-            // DISCUSS: It may be nice to independently compute the slots and compare
-            tower.available_slots = available_slots;
-
-            self.dbm
-                .store_appointment_receipt(tower_id, locator, available_slots, receipt)
-                .unwrap();
+            match self.dbm.store_appointment_receipt(
+                tower_id,
+                locator,
+                available_slots,
+                receipt,
+            ) {
+                // DISCUSS: It may be nice to independently compute the slots and compare
+                Ok(()) => tower.available_slots = available_slots,
+                Err(e) if already_stored(&e) => {
+                    log::debug!("{tower_id} had already acknowledged {locator}")
+                }
+                Err(e) => panic!("{e:?}"),
+            }
         } else {
             log::error!("Cannot add appointment receipt to tower. Unknown tower_id: {tower_id}");
         }
@@ -246,9 +263,13 @@ impl WTClient {
         if let Some(tower) = self.towers.get_mut(&tower_id) {
             tower.pending_appointments.insert(appointment.locator);
 
-            self.dbm
-                .store_pending_appointment(tower_id, appointment)
-                .unwrap();
+            match self.dbm.store_pending_appointment(tower_id, appointment) {
+                Ok(()) => {}
+                Err(e) if already_stored(&e) => {
+                    log::debug!("{} was already pending for {tower_id}", appointment.locator)
+                }
+                Err(e) => panic!("{e:?}"),
+            }
         } else {
             log::error!("Cannot add pending appointment to tower. Unknown tower_id: {tower_id}");
         }
@@ -272,9 +293,13 @@ impl WTClient {
         if let Some(tower) = self.towers.get_mut(&tower_id) {
             tower.invalid_appointments.insert(appointment.locator);
 
-            self.dbm
-                .store_invalid_appointment(tower_id, appointment)
-                .unwrap();
+            match self.dbm.store_invalid_appointment(tower_id, appointment) {
+                Ok(()) => {}
+                Err(e) if already_stored(&e) => {
+                    log::debug!("{} was already invalid for {tower_id}", appointment.locator)
+                }
+                Err(e) => panic!("{e:?}"),
+            }
         } else {
             log::error!("Cannot add invalid appointment to tower. Unknown tower_id: {tower_id}");
         }
